@@ -157,11 +157,19 @@ Ops ==
                 /\ created' = IF Proc = "SYMLINK" THEN created \cup {Target} ELSE created
   /\ UNCHANGED <<s, slot, h, oth, ret>>
 
-\* MOUNT MNT: the argument is a path, not a component
+\* MOUNT MNT: the argument is a path, not a component.  The name an export is published under
+\* (AbsfsNFS.Export, here "/a") is not part of it; the code as it is does no mapping.  Mutation
+\* "mntTrimExportPrefix": after the clean/absolute test the published name is stripped as a
+\* STRING prefix and the remainder is looked up unvalidated ("/a../x" -> "../x", "/aa" -> "a").
+ExportName == <<SL, 97>>
 Mnt ==
   /\ pc = "mnt"
-  /\ LET p == GoClean(S) IN
-       IF p # <<SL>> /\ ~HasPrefixB(p, <<SL>>)
+  /\ LET p0 == GoClean(S)
+         p  == IF "mntTrimExportPrefix" \in Mutants /\ HasPrefixB(p0, ExportName)
+               THEN (IF Len(p0) = Len(ExportName) THEN <<SL>> ELSE SubSeq(p0, Len(ExportName) + 1, Len(p0)))
+               ELSE p0
+     IN
+       IF p0 # <<SL>> /\ ~HasPrefixB(p0, <<SL>>)
        THEN Finish("fail") /\ UNCHANGED calls
        ELSE /\ calls' = calls \cup {Call("Lstat", p)}
             /\ \E r \in {"ok", "fail"} : Finish(r)
